@@ -119,11 +119,60 @@ def _classify(fn: ast.FunctionDef) -> Optional[str]:
     returns = [n for n in _own_nodes(fn) if isinstance(n, ast.Return)]
     if len(body) == 1 and isinstance(body[0], ast.Return) and body[0].value is not None:
         return "expr"
-    if any(r is not body[-1] for r in returns):
-        return None
     if len(body) > 40:
         return None
+    if any(r is not body[-1] for r in returns):
+        # early returns are fine when they sit in plain if/else nesting (not inside a loop, with or try):
+        # they are turned into assignments to a result variable (see _eliminate_returns)
+        if _eliminate_returns(body, "result__probe") is None:
+            return None
     return "stmts"
+
+
+def _has_return(stmts) -> bool:
+    for s_ in stmts:
+        for n in ast.walk(s_):
+            if isinstance(n, ast.Return):
+                return True
+    return False
+
+
+def _always_returns(stmts) -> bool:
+    if not stmts:
+        return False
+    last = stmts[-1]
+    if isinstance(last, (ast.Return, ast.Raise)):
+        return True
+    if isinstance(last, ast.If) and last.orelse:
+        return _always_returns(last.body) and _always_returns(last.orelse)
+    return False
+
+
+def _eliminate_returns(stmts, rv: str):
+    """the statement list with every `return e` replaced by `rv = e`, early returns turned into if/else
+    nesting; None when a return sits inside a loop / with / try (not expressible without a flag)"""
+    out = []
+    for i, st in enumerate(stmts):
+        if isinstance(st, ast.Return):
+            val = st.value if st.value is not None else ast.Constant(value=None)
+            out.append(ast.copy_location(ast.Assign(targets=[ast.Name(id=rv, ctx=ast.Store())], value=val, lineno=st.lineno), st))
+            return out
+        if isinstance(st, ast.If) and _has_return([st]):
+            rest = list(stmts[i + 1:])
+            b_leaves, e_leaves = _always_returns(st.body), _always_returns(st.orelse)
+            nb = _eliminate_returns(list(st.body) + ([] if b_leaves else copy.deepcopy(rest)), rv)
+            ne = _eliminate_returns(list(st.orelse) + ([] if e_leaves else copy.deepcopy(rest)), rv)
+            if nb is None or ne is None:
+                return None
+            new_if = ast.copy_location(ast.If(test=st.test, body=nb or [ast.Pass()], orelse=ne), st)
+            out.append(new_if)
+            return out
+        if _has_return([st]):
+            return None
+        out.append(st)
+    # fell off the end: the function returns None
+    out.append(ast.Assign(targets=[ast.Name(id=rv, ctx=ast.Store())], value=ast.Constant(value=None), lineno=getattr(stmts[-1], "lineno", 0) if stmts else 0))
+    return out
 
 
 def _calls_name(fn: ast.AST, name: str) -> bool:
@@ -257,7 +306,16 @@ def _expand(h: _Helper, call: ast.Call, caller: ast.AST, targets: Optional[ast.A
         return None
     stmts = body
     ret_expr: Optional[ast.AST] = None
-    if stmts and isinstance(stmts[-1], ast.Return):
+    early = [n for n in _own_nodes(fn) if isinstance(n, ast.Return) and n is not body[-1]]
+    if early:
+        rv = "result" + suffix
+        elim = _eliminate_returns(copy.deepcopy(body), rv)
+        if elim is None:
+            return None
+        stmts = elim
+        ret_expr = ast.Name(id=rv, ctx=ast.Load())
+        stored = stored | {rv}
+    elif stmts and isinstance(stmts[-1], ast.Return):
         ret_expr = stmts[-1].value
         stmts = stmts[:-1]
     # returned locals take the names of the assignment targets
@@ -655,7 +713,7 @@ def normalise_names(trees: Dict[str, ast.Module], anchors: Set[str]) -> List[str
     for a in anchors:
         st_ = a.strip("_")
         # only unmistakable function names: several words, or long
-        if len(st_) >= 5 and ("_" in st_ or len(st_) >= 12):
+        if len(st_) >= 5 and ("_" in st_ or len(st_) >= 7):
             by_stem.setdefault(st_, []).append(a)
     ren: Dict[str, str] = {}
     for f in sorted(defined):
